@@ -216,10 +216,13 @@ func runAM(suite uint16, auth int, cc bool, t tamper) amResult {
 				out.same = "1"
 			}
 		}
-	case <-time.After(allDeadline):
+	case <-time.After(hx.D(allDeadline)):
 	}
 	ca.Close()
 	sa.Close()
+	if grp.timedOut() {
+		out.client, out.server, out.same = "HANG", "HANG", "-"
+	}
 	return out
 }
 
